@@ -91,10 +91,17 @@ def evaluate(f, signals, pred_hook=None):
     return _ev(f, env, start, pred_hook, {})
 
 
+TEMPORAL = ('once', 'historically', 'since', 'eventually', 'always', 'until', 'unless')
+
+
 def _ev(f, env, start, hook, memo):
     if f in memo:
         return memo[f]
     r = _ev1(f, env, start, hook, memo)
+    if f[0] in TEMPORAL and any(v != v for k in f[2:] for v in memo[k].vs):
+        # conservative taint (see ref_discrete._ev): a NaN anywhere in an operand makes the whole temporal
+        # result don't-care
+        r = Step([start], [float('nan')])
     memo[f] = r
     return r
 
